@@ -320,6 +320,11 @@ func (iter *inIndexIterator) Next() (indexIterResult, error) {
 }
 
 func (iter *inIndexIterator) Close() error {
+	if iter.hasIterator {
+		// the iteration was stopped before the current inner iterator was exhausted
+		iter.hasIterator = false
+		return iter.indexIterator.Close()
+	}
 	return nil
 }
 
